@@ -356,6 +356,23 @@ fn t_default_positions<N: ArrayLength>(st: &mut Stats) {
     });
 }
 
+/// boxed map/zip into a type of the same size but stricter alignment (in-place reuse would be UB)
+fn t_box_realign<N: ArrayLength>(st: &mut Stats) {
+    let n = N::USIZE;
+    st.check_case("C08", "map.box", "[u8;4]>u32", || format!("C08 map.box [u8;4]>u32 N={n}"), n > 0, || {
+        let b: Box<GA<[u8; 4], N>> = Box::new(GA::<[u8; 4], N>::generate(|i| (i as u32 * 3).to_le_bytes()));
+        let mut calls = Vec::new();
+        let out: Box<GA<u32, N>> = b.map(|x| {
+            let v = u32::from_le_bytes(x);
+            calls.push(v as u64);
+            v
+        });
+        let want: Vec<u64> = (0..n as u64).map(|i| i * 3).collect();
+        expect_seq("boxed map arguments", &calls, &want, true)?;
+        expect_seq("boxed map results", &out.iter().map(|v| *v as u64).collect::<Vec<_>>(), &want, true)
+    });
+}
+
 fn all_n<N: ArrayLength>(st: &mut Stats, args: &Args) {
     if args.part_on("generate") {
         t_generate::<Tok, N>(st);
@@ -364,6 +381,7 @@ fn all_n<N: ArrayLength>(st: &mut Stats, args: &Args) {
         t_generate::<ZObs, N>(st);
     }
     if args.part_on("map") {
+        t_box_realign::<N>(st);
         t_map_fold::<Tok, Tok, N>(st);
         t_map_fold::<u32, u32, N>(st);
         t_map_fold::<Tok, u32, N>(st);
